@@ -7,6 +7,8 @@ def step (line : String) : String :=
   let r := match toks with
     | "sigma" :: rest => Sigma.run rest
     | "implicit" :: rest => Implicit.run rest
+    | "imex" :: rest => Imex.run rest
+    | "filters" :: rest => Filters.run rest
     | _ => none
   r.getD "bad-op"
 
